@@ -26,7 +26,7 @@ def run(res, tier, seed):
         vlib.model_check(res, SD, 'CallOnce', cfg, timeout=1500)
     vlib.model_check(res, SD, 'CallOnce', 'CallOnce_live.cfg', timeout=1500)
     for cfg in ['ETS_3x1.cfg'] + (['ETS_3x2.cfg', 'ETS_3bx2.cfg', 'ETS_4x1.cfg'] if thorough else []):
-        vlib.model_check(res, SD, 'MCe', cfg, timeout=3000, xmx='24g')
+        vlib.model_check(res, SD, 'MCe', cfg, timeout=3000 if cfg != 'ETS_4x1.cfg' else 7200, xmx='24g')     # ETS_4x1: 3.6e8 states, 40-50 min on 16 idle cores (a loaded machine exceeded 3000 s once)
     exe = vlib.build_harness('h_misc', ['misc/h_misc.cpp'])
     n = 150 if not thorough else 3000
     os.makedirs(os.path.join(vlib.BUILD, 'traces'), exist_ok=True)
